@@ -95,7 +95,7 @@ def run_impl(case, t=None):
     rv = np.arange(n, dtype=float) * u.km / u.s
     err = np.ones(n) * u.km / u.s
     tref = None if case["tref_mode"] == "default" else Time(case["tref"], format="mjd", scale="tcb")
-    data = RVData(t, rv, err, t_ref=tref)
+    data = RVData(t, rv, err, t_ref=tref, clean=case.get("perm_seed", 0) % 3 != 0)  # a third of the cases without cleaning: same finite observations
     s = JokerSamples()
     P = case["P"]
     if case["P_unit"] == "h":
